@@ -1,5 +1,5 @@
 SPECIFICATION Spec
-CONSTANTS Growth = 1 Mode = "bytes" MaxBits = 16
+CONSTANTS Growth = 1 Mode = "bytes" MaxBits = 16 Wide = FALSE
 INVARIANT RoundTrip
 INVARIANT LengthInBLS
 INVARIANT WholeBytes
